@@ -29,7 +29,10 @@ and an incoming `span_parent`. Scripted PANICS unwind out of chains of synchrono
 fns of every kind, `new_span!` + `frame.call`, `Frame::push(..).call`, `Frame::in_fn` on another
 thread) up to a `catch_unwind` at an ancestor (right around the child or levels up), after which the
 ancestor goes on emitting events and starting children and the thread runs the next, unrelated root.
-Besides the runtimes above, every tree also runs on one of ten runtimes whose context is reached
+CANCELLATION: chains of 1-3 nested async spans whose future is polled by hand and DROPPED while
+every span of the chain is suspended (or never polled at all): each started span completes in its
+own frame (own ids / parent on its event), and the ambient ids on the dropping thread are what they
+were before. Besides the runtimes above, every tree also runs on one of ten runtimes whose context is reached
 through a forwarding wrapper (`&C`, `Box<C>`, `Arc<C>`, `Box<dyn ErasedCtxt>`, `AssertInternal<C>`,
 `Option<C>`, and stacks of two, over `ThreadLocalCtxt` and over `ListCtxt`).
 
@@ -616,7 +619,14 @@ impl<'a> Oracle<'a> {
             let want = if node.enabled { 1 } else { 0 };
             if evs.len() != want {
                 self.bad(
-                    format!("span-events-{}-for-{}-span:{}", evs.len().min(2), if node.enabled { "enabled" } else { "disabled" }, k),
+                    format!(
+                        "{}span-events-{}-for-{}-span:{}",
+                        // (async nodes that never get to their end are the ones dropped while suspended)
+                        if node.unwinds && node.is_async { "cancelled:" } else { "" },
+                        evs.len().min(2),
+                        if node.enabled { "enabled" } else { "disabled" },
+                        k
+                    ),
                     format!("node {} (enabled={}) produced {} span events", node.id, node.enabled, evs.len()),
                 );
             }
@@ -627,7 +637,7 @@ impl<'a> Oracle<'a> {
                     let want_p = inside.ids.parent.map(hex_span);
                     if e.trace != want_t || e.span != want_s || e.parent != want_p {
                         self.bad(
-                            format!("span-event-ids:{}:via={}:outer={}", k, via, outer.src),
+                            format!("{}span-event-ids:{}:via={}:outer={}", if node.unwinds && node.is_async { "cancelled:" } else { "" }, k, via, outer.src),
                             format!(
                                 "span event of node {} carries trace_id={:?} span_id={:?} span_parent={:?}, its body saw {}",
                                 node.id,
